@@ -505,3 +505,81 @@ func ruleR193(c *Ctx) {
 		c.Missing("subscribe acknowledgement", "no acknowledged subscription clause was found in pkg/tracing")
 	}
 }
+
+// ---- R194 (states F17's repaired shape) ----
+
+func init() {
+	register(&Rule{ID: "R194", Title: "a monitor counts its own start events only: where a completion monitor records a start event taken from a trace, the record is guarded by a test that the start event is one of the scope's own StartEvents()", Min: 4, Run: ruleR194})
+}
+
+func ruleR194(c *Ctx) {
+	p := c.P
+	what := "the traces of an embedded sub-process are forwarded into the tracer of the scope around it. Its inner start event is a *schema.StartEvent too: a monitor that counts every start event it sees takes it for one of the process's own and reports completion although a second start event of the process never fired"
+	n := 0
+	// functions of the package that look at the scope's own StartEvents()
+	mentionsStartEvents := func(h *FuncInfo) bool {
+		if h == nil || h.Body == nil {
+			return false
+		}
+		return mentionsDeep(h.Body, func(z ast.Node) bool {
+			se, ok := z.(*ast.SelectorExpr)
+			return ok && se.Sel.Name == "StartEvents"
+		})
+	}
+	for _, f := range p.Funcs {
+		if f.Body == nil || f.Pkg.PkgPath != pathBpmn {
+			continue
+		}
+		in := info(f)
+		sends := false
+		inspectNoLit(f.Body, func(m ast.Node) bool {
+			if cl, ok := m.(*ast.CallExpr); ok && isTracerMethod(in, cl, "Send") {
+				if t, ok := sentTraceType(in, cl); ok && t == "CeaseFlowTrace" {
+					sends = true
+				}
+			}
+			return true
+		})
+		if !sends {
+			continue
+		}
+		inspectNoLit(f.Body, func(m ast.Node) bool {
+			as, ok := m.(*ast.AssignStmt)
+			if !ok || len(as.Rhs) != 1 || len(as.Lhs) != 1 {
+				return true
+			}
+			cl, ok := unparen(as.Rhs[0]).(*ast.CallExpr)
+			if !ok || !isBuiltin(in, cl, "append") || len(cl.Args) != 2 {
+				return true
+			}
+			pt, isPtr := in.TypeOf(cl.Args[1]).(*types.Pointer)
+			if !isPtr || !isNamed(pt.Elem(), pathSchema, "StartEvent") {
+				return true
+			}
+			n++
+			guarded := ""
+			for _, pc := range polarConds(p, as) {
+				if !pc.positive {
+					continue
+				}
+				ast.Inspect(pc.cond, func(z ast.Node) bool {
+					if c2, ok := z.(*ast.CallExpr); ok {
+						if cf := p.byObj[callee(in, c2)]; cf != nil && mentionsStartEvents(cf) {
+							for _, a := range c2.Args {
+								if sameRef(in, a, cl.Args[1]) {
+									guarded = cf.QName()
+								}
+							}
+						}
+					}
+					return true
+				})
+			}
+			c.Check(guarded != "", f, as, "record of a start event in "+f.Root().QName(), what, ifElse(guarded != "", "guarded by "+guarded+", which looks at the scope's StartEvents()", "every *schema.StartEvent seen on the tracer is recorded"))
+			return true
+		})
+	}
+	if n == 0 {
+		c.Missing("start event records", "no completion monitor that records start events was found")
+	}
+}
